@@ -540,8 +540,46 @@ pub fn gen_c11(rng: &mut Rng, thorough: bool, out: &mut Cases) {
 }
 
 fn mutate_doc(rng: &mut Rng, doc: &[u8]) -> Vec<u8> {
+    let d = mutate_doc_inner(rng, doc);
+    if rng.chance(1, 3) {
+        // a UTF-8 byte-order mark: the tokenizer strips it, offsets reported for error messages shift
+        let mut v = vec![0xef, 0xbb, 0xbf];
+        v.extend_from_slice(&d);
+        v
+    } else {
+        d
+    }
+}
+
+fn mutate_doc_inner(rng: &mut Rng, doc: &[u8]) -> Vec<u8> {
     let mut d = doc.to_vec();
-    match rng.below(6) {
+    match rng.below(9) {
+        6 | 7 => {
+            // a number that is not one: multi-byte text where BYTE-LENGTH / SEQUENCE-NUMBER want digits (refusal with a
+            // position in the error message)
+            let s = String::from_utf8_lossy(doc).to_string();
+            let tag = *rng.pick(&["BYTE-LENGTH>", "SEQUENCE-NUMBER>"]);
+            let hits: Vec<usize> = s.match_indices(tag).map(|(i, _)| i + tag.len()).filter(|i| s[*i..].starts_with(|c: char| c.is_ascii_digit())).collect();
+            if !hits.is_empty() {
+                let at = *rng.pick(&hits);
+                let end = at + s[at..].find('<').unwrap_or(0);
+                let junk = *rng.pick(&["éé", "1€x", "é", "𝄞1", "12é", "€", "-1", "1e3", " 7", "ü€ü"]);
+                d = [s[..at].as_bytes(), junk.as_bytes(), s[end..].as_bytes()].concat();
+            }
+        }
+        8 => {
+            // drop the ID of an element that also carries a multi-byte attribute (missing-attribute refusal)
+            let s = String::from_utf8_lossy(doc).to_string();
+            let hits: Vec<usize> = s.match_indices(" ID=\"").map(|(i, _)| i).collect();
+            if !hits.is_empty() {
+                let at = *rng.pick(&hits);
+                if let Some(q) = s[at + 5..].find('"') {
+                    let end = at + 5 + q + 1;
+                    let name = *rng.pick(&[" NAME=\"é\"", " NAME=\"x€é\"", " N=\"𝄞\"", ""]);
+                    d = [s[..at].as_bytes(), name.as_bytes(), s[end..].as_bytes()].concat();
+                }
+            }
+        }
         0 => {
             let k = rng.below(d.len() as u64 + 1) as usize;
             d.truncate(k);
